@@ -8,6 +8,17 @@ import StraxModel.Lemmas.Selection
   `apply_selection` keeps in mode `m`; `getArray fields s a sel` = `Context.get_array` of one stored
   target; `LawAbiding s` = decidable hypothesis "ordinary stored data obeying the laws of chunking".
   `RealMode m` = `fully_contained` or `touching`.
+
+  What the hypothesis excludes: `LawAbiding` demands rows of POSITIVE duration (law 4 of chunking; a zero-length row
+  sitting exactly on `t0` / `t1` is dropped by the loader's split but selected by `fully_contained`, so the commutation is
+  false for such rows) and PLAIN chunks (no sub-runs, one super-run entry): super-run data is outside (time ranges on
+  superruns raise `NotImplementedError` in `get_components`).  Every stored layout of the check is inside
+  (component `hypothesis/law-abiding`).
+
+  Clauses of the property without a theorem: "independent of the processor" (oracle + correspondence on both
+  processors only); "nothing is saved" is a theorem only about `savePlan`, the single-output slice of `check_cache`
+  (tied by `partial-requests/no-saving`); the statement over the full `get_components` model, including multi-output
+  siblings, is `Strax.C11.partial_never_saves`.
 -/
 namespace Strax.C10
 open Strax Strax.Selection
@@ -28,7 +39,7 @@ example : LawAbiding exLayout ∧ LawAbiding exGiant ∧ allRows exLayout = allR
 
 /-! ## 1. the loader is total on law-abiding data and the selection commutes with it -/
 
-/-- `range_commutes` (DESIGN §6): for EVERY range (also empty and reversed ones), both modes and every
+/-- `range_commutes`: for EVERY range (also empty and reversed ones), both modes and every
 row predicate, concatenating `select` over the chunks the loader yields = `select` on all stored rows.
 Includes totality: the left early split and the right strict split (`CannotSplit` swallowed) never
 fail on law-abiding data. -/
@@ -78,7 +89,7 @@ theorem epilogue_error_kinds :
     epilogue false none = .error .dataCorrupted ∧ (∀ r, epilogue false (some r) = .error .valueError) ∧
     (∀ r, epilogue true r = .ok ()) := ⟨rfl, fun _ => rfl, fun _ => rfl⟩
 
-/-- `no_chunk_error_iff` (DESIGN §6): with acceptable column arguments and a proper range, `get_array`
+/-- `no_chunk_error_iff`: with acceptable column arguments and a proper range, `get_array`
 ends in the explicit `ValueError` exactly when the range overlaps no chunk, i.e. is disjoint from
 `[S, E)`. -/
 theorem no_chunk_error_iff (fields : List String) (s : List Chunk) (r : Range) (sel : Sel) (S E : Int)
@@ -145,7 +156,7 @@ example : getArray ["time", "endtime", "id"] exLayout { timeRange := some (18, 2
 
 /-! ## 4. row selection and column projection commute with chunking -/
 
-/-- `project_commutes` (DESIGN §6): applying `apply_selection` (time mode, row predicate, keep / drop
+/-- `project_commutes`: applying `apply_selection` (time mode, row predicate, keep / drop
 columns) chunk by chunk and concatenating — what `get_iter` + `get_array` do — equals applying it once
 to the concatenated rows: same rows, same column list, same error. -/
 theorem project_commutes (fields : List String) (sel : Sel) (r : Option Range) (c : List Row)
@@ -235,12 +246,19 @@ theorem degenerate_range_depends_on_chunking :
 theorem toAbsolute_time_range (s : List Chunk) (r : Range) :
     toAbsolute s { timeRange := some r } = .ok (some r) := rfl
 
+/-- (`w` is the pair `(row["time"], strax.endtime(row))`; extracting it from a structured row is done by the
+adapter, for both interval encodings) -/
 theorem toAbsolute_time_within (s : List Chunk) (w : Range) :
     toAbsolute s { timeWithin := some w } = .ok (some w) := rfl
 
 theorem toAbsolute_seconds (s : List Chunk) (a b : Sec) (t0 : Int) (h : runStart s = .ok t0) :
     toAbsolute s { secondsRange := some (a, b) } = .ok (some (t0 + a.toNs, t0 + b.toNs)) := by
-  simp [toAbsolute, h]
+  simp [toAbsolute, estimateRunStart, h]
+
+/-- with a run document the run start is its `start` floored to a whole second, whatever is stored -/
+theorem toAbsolute_seconds_run_document (s : List Chunk) (a b : Sec) (startS : Int) :
+    toAbsolute s { secondsRange := some (a, b), runDocStartS := some startS }
+      = .ok (some (startS * 1000000000 + a.toNs, startS * 1000000000 + b.toNs)) := rfl
 
 theorem toAbsolute_all_three (s : List Chunk) (r w : Range) (a b : Sec) :
     toAbsolute s { timeRange := some r, secondsRange := some (a, b), timeWithin := some w } = .error .runtimeError :=
@@ -262,8 +280,10 @@ example : toAbsolute exLayout { secondsRange := some (⟨11, 1000000000⟩, ⟨1
 
 /-! ## 7. a partial request never saves -/
 
-/-- `check_cache`: whenever a time range, a selection or a column projection is present, nothing
-is saved: the plan is never `computeSave`; stored data is always just loaded. -/
+/-- `check_cache`, single-output slice (`savePlan`): whenever a time range, a selection or a column projection is
+present, nothing is saved: the plan is never `computeSave`; stored data is always just loaded.  The authoritative
+statement over the whole `get_components` model (any graph, multi-output plugins) is `Strax.C11.partial_never_saves`;
+this one only says that the slice the C10 harness observes end to end agrees with it. -/
 theorem partial_request_never_saves (stored : Bool) (sw : SaveWhen) (isTarget inSave hasRange hasSel hasCols : Bool)
     (h : savePlan stored sw isTarget inSave hasRange hasSel hasCols = .ok .computeSave) :
     hasRange = false ∧ hasSel = false ∧ hasCols = false ∧ stored = false := by
